@@ -110,7 +110,7 @@ def run(tier):
             g = groups[len(groups) // 2]
             stats["samples"].append({"scn": g[0], "allowed": g[1][:2]})
 
-    for e in wc.export_runs(ck, "OpsGroup", wc.GROUP_INVS, runs_for(tier), par=4,
+    for e in wc.export_runs(ck, "OpsGroup", wc.GROUP_INVS, runs_for(tier), par=5 if tier == "quick" else 4,
                             timeout=240 if tier == "quick" else 3000, light=tier == "quick"):
         digest(e)
     ck.exhaustive = True
